@@ -779,14 +779,6 @@ class ModelWorld(BaseWorld):
         invalid = None
         if rng.random() < p_inv:
             invalid = rng.choice(['type', 'max', 'repeat', 'duplicate', 'nonmember'])
-            if invalid in ('type', 'max') and len(ref.assoc_order) > 8:
-                # the generated classes put repr() of the offending objects into the error
-                # message, and repr() of an asset walks everything linked to it: in a densely
-                # linked model one refusal takes minutes (measured: 150 s with 20 associations).
-                # A matter of speed, not of any property here - such refusals are only
-                # provoked while the model is small.
-                invalid = rng.choice(['repeat', 'duplicate', 'nonmember'])
-                self.count('probe:slow_refusal_avoided_in_dense_model')
 
         def pick(cands, mx):
             k = rng.choice([1, 1, 1, 2, 2, 3])
@@ -1376,18 +1368,30 @@ class ModelWorld(BaseWorld):
         where = f'add_association {info.cls}({info.lf}={names(left)}, {info.rf}={names(right)})'
         if op.get('how') == 'append':
             where += ' [members appended to the fields]'
-        o = call(build)
+        from .world import time_limit, SlowRefusal
+        slow_kind = bool(problem) and problem.split(':')[0] in ('max', 'type')
+
+        def lim(fn, *a):
+            # refusals of these two kinds come with an error message that can take minutes
+            # to format in a densely linked model (see world.time_limit)
+            if not slow_kind:
+                return fn(*a)
+            with time_limit(4.0):
+                return fn(*a)
+        o = call(lim, build)
         if not o.raised:
             s = o.value
             if op.get('peek'):
                 for f in (info.lf, info.rf):
-                    call(lambda f=f: len(list(getattr(s, f))))      # a look at the field
-            o = call(model.add_association, s)
-            if o.raised and op.get('attempts', 1) > 1:
+                    call(lim, lambda f=f: len(list(getattr(s, f))))      # a look at the field
+            o = call(lim, model.add_association, s)
+            if o.raised and op.get('attempts', 1) > 1 and not isinstance(o.exc, SlowRefusal):
                 # refused: the caller tries the very same call again
                 self.count('fault:refused_add_association_retried')
-                o = call(model.add_association, s)
+                o = call(lim, model.add_association, s)
                 where += ' [second attempt with the same object]'
+        if o.raised and isinstance(o.exc, SlowRefusal):
+            self.count('probe:slow_refusal_cut_short')
         if problem:
             self.count('fault:rejected_assoc_' + problem.split(':')[0])
             if problem == 'nonmember':
